@@ -54,7 +54,9 @@ def pos(label):
 
 def index_kind(seed, kind):
     # calendar indices only where the transformer's arithmetic depends on the time unit (the deseasonalizers align
-    # the seasonal pattern by the distance from the training start measured in the index's unit)
+    # the seasonal pattern by the distance from the training start measured in the index's unit).  Transformers that
+    # go through a forecaster (detrenders, forecaster-based imputation) do horizon arithmetic that reads the freq of
+    # a pd.Timestamp cutoff, which pandas >= 2 no longer has: calendar indexes cannot run there in this sandbox.
     return seed % 5 if kind in ("deseason_add", "deseason_mul", "cond_deseason") else seed % 2
 
 
